@@ -13,6 +13,7 @@ import (
 
 	"github.com/antonmedv/expr"
 	"github.com/antonmedv/expr/ast"
+	"github.com/antonmedv/expr/docgen"
 	"github.com/antonmedv/expr/parser"
 	"github.com/antonmedv/expr/vm"
 
@@ -531,7 +532,55 @@ func c04Shapes() map[string]string {
 			m[fmt.Sprintf("depth60:%s:%s", name, opt)] = strings.Repeat(unit[0], 60) + "1" + strings.Repeat(unit[1], 60)
 		}
 	}
+	// environment types that refer to themselves (embedded pointer to the own type, mutual embedding, recursive members):
+	// run in a child, because unbounded recursion over such a type is a stack overflow that no recover can catch
+	for k := range c04RecursiveEnvCases {
+		m[fmt.Sprintf("recursive-env:%02d", k)] = c04RecursiveEnvCases[k].src
+	}
 	return m
+}
+
+type c04SelfT struct {
+	*c04SelfT
+	V int
+}
+type c04MutA struct {
+	*c04MutB
+	X int
+}
+type c04MutB struct {
+	*c04MutA
+	Y int
+}
+type c04List struct {
+	Next *c04List
+	V    int
+}
+type c04Tree struct {
+	Kids []c04Tree
+	M    map[string]*c04Tree
+	V    int
+}
+type c04RecHolder struct {
+	N *c04SelfT
+	M *c04MutA
+	L c04List
+	T c04Tree
+}
+
+func (c04SelfT) Twice() int { return 2 }
+
+var c04RecursiveEnvCases = []struct {
+	src string
+	env func() interface{}
+}{
+	{"V + 1", func() interface{} { return c04SelfT{V: 1} }}, {"V + Twice()", func() interface{} { return &c04SelfT{V: 1} }}, {"Zz", func() interface{} { return c04SelfT{} }},
+	{"X + Y", func() interface{} { return c04MutA{} }}, {"Zz()", func() interface{} { return &c04MutA{} }},
+	{"N.V + 1", func() interface{} { return c04RecHolder{} }}, {"N.Zz", func() interface{} { return c04RecHolder{} }}, {"N.Zz()", func() interface{} { return c04RecHolder{} }}, {"N.Twice()", func() interface{} { return c04RecHolder{N: &c04SelfT{}} }},
+	{"M.Y + M.X", func() interface{} { return c04RecHolder{} }}, {"M.Zz()", func() interface{} { return c04RecHolder{} }}, {"M.Zz", func() interface{} { return c04RecHolder{M: &c04MutA{}} }},
+	{"L.Next.Next.V", func() interface{} { return c04RecHolder{} }}, {"L.Next.Zz", func() interface{} { return c04RecHolder{} }}, {"L.Next?.Next?.V", func() interface{} { return c04RecHolder{} }},
+	{"T.Kids[0].Kids", func() interface{} { return c04RecHolder{} }}, {`T.M["a"].M["b"].V`, func() interface{} { return c04RecHolder{} }}, {"len(T.Kids) + T.Zz", func() interface{} { return c04RecHolder{} }},
+	{"all(T.Kids, {len(#.Kids) == 0})", func() interface{} { return c04RecHolder{T: c04Tree{Kids: []c04Tree{{}, {}}}} }},
 }
 
 var c04DepthOptions = map[string]func() []expr.Option{
@@ -564,6 +613,24 @@ func c04StressChild() {
 	}
 	if f := strings.Split(shape, ":"); len(f) == 3 && f[0] == "depth60" {
 		ops = c04DepthOptions[f[2]]()
+	}
+	if f := strings.Split(shape, ":"); len(f) == 2 && f[0] == "recursive-env" {
+		var k int
+		fmt.Sscanf(f[1], "%d", &k)
+		c := c04RecursiveEnvCases[k]
+		for _, extra := range [][]expr.Option{nil, {expr.AllowUndefinedVariables()}, {expr.Optimize(false)}} {
+			kind, what := c04All(c.src, c.env(), append([]expr.Option{expr.Env(c.env())}, extra...))
+			if kind != "" {
+				fmt.Printf("STRESS-VIOLATION %s %s\n", kind, what)
+				os.Exit(3)
+			}
+		}
+		if o := c04Try(func() { docgen.CreateDoc(c.env()) }); o.panicked {
+			fmt.Printf("STRESS-VIOLATION docgen-panics %s\n", o.msg)
+			os.Exit(3)
+		}
+		fmt.Println("STRESS-OK")
+		os.Exit(0)
 	}
 	kind, what := c04All(src, full, ops)
 	if kind != "" {
